@@ -113,7 +113,9 @@ def observe(T, env):
                     detail = detail or f"{name}({x!r}) raised {e!r} although a member of the union accepts anything"[:200]
     if pv is not None:
         x, find = pv
-        for name, fn in (("unmarshal", U), ("marshal", M)):
+        # (the routines, and the one-shot entry points for the same annotation: what passes through a routine passes through them)
+        for name, fn in (("unmarshal", U), ("marshal", M), ("unmarshal()", lambda y: typelib.unmarshal(ann, y)),
+                         ("marshal()", lambda y: typelib.marshal(y, t=ann))):
             try:
                 r = with_deadline(3, fn, x)
                 same = find(r) is s
@@ -124,6 +126,20 @@ def observe(T, env):
                 ev["passthrough"] = False
                 detail = detail or f"{name}: sentinel not passed through"
             outs.append(same)
+    if T["k"] == "ext" and T["n"] in PASS:
+        # a pass-through root given a container that holds the sentinel: the member comes back as the very object, through the
+        # routines and through the one-shot entry points alike
+        for x, find in (([s], lambda r: r[0]), ({"k": s}, lambda r: r["k"]), ({s}, lambda r: next(iter(r)))):
+            for name, fn in (("unmarshal", U), ("marshal", M), ("unmarshal()", lambda y: typelib.unmarshal(ann, y)),
+                             ("marshal()", lambda y: typelib.marshal(y, t=ann))):
+                try:
+                    same = find(with_deadline(3, fn, x)) is s
+                except Exception as e:
+                    same = False
+                    detail = detail or f"{name}({type(x).__name__} holding the sentinel) raised {e!r}"[:160]
+                if not same:
+                    ev["passthrough"] = False
+                    detail = detail or f"{name}: sentinel inside a {type(x).__name__} not passed through"
     # repeatable: build again (memoised), and once more after clearing every cache: same behaviour on the probe
     def shown(r):
         if isinstance(r, Sentinel):
